@@ -65,6 +65,8 @@ def role_seq(calls):
     back = {v.split("::")[-1]: k for k, v in ROLE.items()}
     out = []
     for c in calls:
+        if c[1].startswith("log::") or c[1].startswith("<log::") or c[1].startswith("core::fmt::"):
+            continue  # the logging facade and the formatting of its arguments
         if "Fn<()>" in c[1]:
             out.append("timer")
         else:
@@ -76,11 +78,17 @@ def role_seq(calls):
 
 def ev_for(crate, opaque=()):
     ev = crate.evaluator(max_steps=3000000)
+    ev.neutral_crates.add("log")  # the log facade gets formatted copies; that it cannot touch the generator is C19's (no &mut, no statics)
     ev.summarise_loops = True
     ev.unroll_limit = 100
     for d in opaque:
         ev.no_inline.add(d)
     return ev
+
+
+def sig_calls(ev):
+    """the calls that role_seq names (the logging facade and the formatting of its arguments left out)"""
+    return [c for c in ev.calls if not (c[1].startswith("log::") or c[1].startswith("<log::") or c[1].startswith("core::fmt::"))]
 
 
 def timer_calls(ev):
@@ -91,8 +99,17 @@ def reading(call):
     return T.atom("res", 64, (call,), "ret")
 
 
+from ..report import Suffixed as _Suffixed
+
+
 def run(chk, tier):
-    crate = Crate("rand_jitter")
+    run_config(chk, tier, None)
+    # the procedure must be the same with the optional features on (std + log): the logging macros expand to code there
+    run_config(_Suffixed(chk, " [std+log]"), tier, "jitter-std")
+
+
+def run_config(chk, tier, config):
+    crate = Crate("rand_jitter", config) if config else Crate("rand_jitter")
     chk.config(crate.config)
     g = Gen(crate, "JitterRng")
     ROLE.clear()
@@ -261,13 +278,13 @@ def run(chk, tier):
     chk.ob("R7", "measure_jitter|memaccess, then one reading, then lfsr_time", oks, "sequence %s" % seq, where=crate.bodies[jk]["span"][0],
            sample={"fragment": "measure_jitter", "sequence": seq})
     if oks:
-        rd = reading(ev.calls[1][4])
+        rd = reading(sig_calls(ev)[1][4])
         iP = find_field(ecadt, "prev_time", "u64")
         delta32 = T.trunc(T.sub(rd, ecpre.fields[iP]), 32)
-        lf = ev.calls[2]
+        lf = sig_calls(ev)[2]
         # arguments of lfsr_time: (self, time = sign-extended delta, true)
         okarg = lf[5][1] == (T.sext(delta32, 64),) and lf[5][2] == (T.TRUE,)
-        mm = ev.calls[0]
+        mm = sig_calls(ev)[0]
         okarg = okarg and mm[5][2] == (T.TRUE,)
         chk.ob("R7", "measure_jitter|delta = low 32 bits of (reading - previous reading), folded sign-extended, variable rounds on", okarg,
                "lfsr_time args %s" % [[T.show(x, 2) for x in a] for a in lf[5][1:]], where=crate.bodies[jk]["span"][0])
@@ -354,9 +371,9 @@ def run(chk, tier):
     chk.ob("R8", "gen_entropy|per round: repeat measure_jitter until it is accepted", okl, "loops: %d" % len(recs), where=crate.bodies[gk]["span"][0])
     # EcState initialisation: prev_time = priming reading, deltas 0, mem zeroed: visible in the first measure_jitter call's arguments
     if oks:
-        first = ev.calls[1]
+        first = sig_calls(ev)[1]
         ecsig = first[5][1]
-        rd0 = reading(ev.calls[0][4])
+        rd0 = reading(sig_calls(ev)[0][4])
         okec = len(ecsig) >= 3 and ecsig[0] is rd0 and ecsig[1] is T.const(0, 32) and ecsig[2] is T.const(0, 32)
         chk.ob("R8", "gen_entropy|collector state starts from the priming reading with zero delta history", okec,
                "first measurement sees %s" % [T.show(x, 2) for x in ecsig[:3]], where=crate.bodies[gk]["span"][0])
@@ -372,8 +389,8 @@ def run(chk, tier):
     seq = role_seq(ev.calls)
     oks = seq == ["timer", "memaccess", "lfsr_time", "timer"]
     if oks:
-        t1, t2 = reading(ev.calls[0][4]), reading(ev.calls[3][4])
-        oks = r is T.sub(t2, t1) and ev.calls[1][5][2] == (var,) and ev.calls[2][5][1] == (t1,) and ev.calls[2][5][2] == (var,)
+        t1, t2 = reading(sig_calls(ev)[0][4]), reading(sig_calls(ev)[3][4])
+        oks = r is T.sub(t2, t1) and sig_calls(ev)[1][5][2] == (var,) and sig_calls(ev)[2][5][1] == (t1,) and sig_calls(ev)[2][5][2] == (var,)
     chk.ob("R10", "timer_stats|reading, memaccess(var), lfsr_time(reading, var), reading; returns the difference", oks,
            "sequence %s, returns %s" % (seq, T.show(r, 2) if isinstance(r, T.T) else r), where=crate.bodies[sk2]["span"][0])
 
